@@ -1,4 +1,4 @@
-import Tulz.Proofs.PoolX
+import Tulz.Proofs.PoolXMeasure
 /-
   C07 / C08 for tulz::ThreadPool WITH expiring workers and update()  (model: Tulz/Model/PoolX.lean, namespace TPoolX).
 
@@ -62,8 +62,7 @@ theorem C08X_stop_quiescent (hp : (tasksOf prog).Nodup) (h : Reach max timeout p
 /-- **C08X (progress inside stop)**: while the owner is inside `stop()` (flag cleared … final clear() pending) some step of the
     code is always enabled — the owner's own, or a step of the worker it is joining (which is never blocked un-notified: the flag
     write and the predicate evaluation exclude each other; a running task body is one finite step) — whatever the workers were
-    doing: idle, expired, retired but not reaped, completing.  (That stop() then RETURNS in every fair run needs a decreasing
-    measure; it is proved for non-expiring workers as TPool.C08_stop_measure / C08_stop_returns.) -/
+    doing: idle, expired, retired but not reaped, completing.  That stop() then RETURNS is `C08X_stop_measure` / `C08X_stop_returns` below. -/
 theorem C08X_stop_progress (h : Reach max timeout prog s) (hs : inStop s.owner) : ∃ t, Step s t :=
   stop_progress (reach_inv h).1 (reach_pinv h) hs
 
@@ -141,5 +140,27 @@ example : (tasksOf exProg).Nodup := by decide
 
 /-- the step function is exercised by the reachability witnesses above (`xrun?` iterates `xstep?`) -/
 example : xstep? (init 1 (some 5) exProg) (.owner none) ≠ none := by decide
+
+/-- **C08X (measure)**: while the owner is inside `stop()`, every step of the code — of the owner or of any worker, expiring or
+    not, retired-but-not-reaped or in the middle of a task — strictly decreases `stopMeasure` (owner: joins still to do; worker:
+    steps it can still make once the flag is cleared); a spurious wake-up decreases it too and a clock tick leaves it unchanged. -/
+theorem C08X_stop_measure (h : Reach max timeout prog s) (hs : inStop s.owner) {t : State} (hst : SStep s t) :
+    stopMeasure t ≤ stopMeasure s ∧ ((∃ d, t = { s with now := s.now + d }) ∨ stopMeasure t < stopMeasure s) :=
+  stopMeasure_sstep (reach_inv h).1 (reach_pinv h) hs hst
+
+/-- **C08X (stop() returns)**: from any reachable state in which the owner is inside `stop()`, an execution makes at most
+    `stopMeasure s` steps of the code before `stop()` has returned (`StopRun s n u`: `n` consecutive code steps, the owner inside
+    `stop()` before each of them) — and until then a step is always enabled (`C08X_stop_progress`).  So `stop()` terminates in
+    every interleaving, with expiring workers and pending `update()` work as well. -/
+theorem C08X_stop_returns (h : Reach max timeout prog s) {n : Nat} {u : State} (r : StopRun s n u) :
+    n + stopMeasure u ≤ stopMeasure s :=
+  stop_bounded h r
+
+/-- non-vacuity: in the state "owner joins worker 0, which is in the middle of task 1" the measure is 7 -/
+def exJoinState : State :=
+  { queue := [], running := false, pool := [0], ws := [⟨.running 1, 0⟩], owner := .join [0] [], max := 1, timeout := some 5, now := 0,
+    submitted := [1], runs := [1], finished := [], destroyed := [], dropped := [], stopped := false }
+
+example : stopMeasure exJoinState = 7 ∧ inStop exJoinState.owner := ⟨by decide, Or.inr (Or.inl ⟨_, _, rfl⟩)⟩
 
 end TPoolX
